@@ -38,10 +38,12 @@ Qed.
 
 Lemma WF_astep st a o : WF a -> WF (fst (astep st a o)).
 Proof.
-  intro Hwf. destruct o as [kt v|k|k]; simpl.
+  intro Hwf. destruct o as [kt v|k|k|kt|q]; simpl.
   - apply WF_aspec_set. exact Hwf.
   - apply WF_aspec_del. exact Hwf.
   - destruct st; [apply WF_aspec_del|]; exact Hwf.
+  - destruct st; [apply (WF_adrop_fold kt a Hwf)|exact Hwf].
+  - exact Hwf.
 Qed.
 
 Lemma WF_after st ops : WF (astate_after st ops).
@@ -262,4 +264,96 @@ Proof.
   destruct (mem k kt) eqn:E.
   - apply mem_In in E. apply H1. exact E.
   - apply mem_false in E. apply H3. exact E.
+Qed.
+
+(* ------------------------------------------------------------------ *)
+(* round 2: constructor argument, rejected assignments, observations   *)
+Lemma coherent_after init : Forall op_ok init ->
+  Coherent (mstate_after init) (aspec_after false init).
+Proof.
+  unfold mstate_after, aspec_after. generalize Coherent_init. generalize ainit. generalize empty.
+  induction init as [|o r IH]; intros d a HC Hok; simpl; [exact HC|].
+  inversion Hok as [|o' r' Ho Hr]; subst. apply IH; [|exact Hr].
+  apply (mstep_coherent d a o HC Ho).
+Qed.
+
+Lemma scoh_after init : Forall op_ok init ->
+  SCoh (sstate_after init) (aspec_after true init).
+Proof.
+  unfold sstate_after, aspec_after. generalize SCoh_init. generalize ainit. generalize sd_empty.
+  induction init as [|o r IH]; intros s a HS Hok; simpl; [exact HS|].
+  inversion Hok as [|o' r' Ho Hr]; subst. apply IH; [|exact Hr].
+  apply (sstep_scoh s a o HS Ho).
+Qed.
+
+(* the refinement from any state the constructor can produce, including the view before the first step *)
+Theorem mkd_refines_from : forall ks vs init ops,
+  Forall op_ok init -> Forall op_ok ops ->
+  view_ok (mview ks vs (mstate_after init) false) (aview false ks vs (aspec_after false init) false) /\
+  Forall2 view_ok (mrun ks vs (mstate_after init) ops) (arun false ks vs (aspec_after false init) ops).
+Proof.
+  intros ks vs init ops Hi Ho. pose proof (coherent_after init Hi) as HC.
+  split; [apply mview_ok; exact HC|apply mkd_refines_gen; assumption].
+Qed.
+
+Theorem sd_refines_from : forall ks vs init ops,
+  Forall op_ok init -> Forall op_ok ops ->
+  view_ok (sview ks vs (sstate_after init) false) (aview true ks vs (aspec_after true init) false) /\
+  Forall2 view_ok (srun ks vs (sstate_after init) ops) (arun true ks vs (aspec_after true init) ops).
+Proof.
+  intros ks vs init ops Hi Ho. pose proof (scoh_after init Hi) as HS.
+  split; [apply sview_ok; exact HS|apply sd_refines_gen; assumption].
+Qed.
+
+(* observations are pure, in the model of the implementation and in the specification *)
+Theorem observation_pure : forall d s a st q,
+  fst (mstep d (OObs q)) = d /\ fst (sstep s (OObs q)) = s /\ fst (astep st a (OObs q)) = a.
+Proof. intros. repeat split. Qed.
+
+(* a rejected assignment is the identity step of a MultiKeyDict and raises *)
+Theorem mkd_rejected_set_identity : forall d a kt,
+  mstep d (OSetBad kt) = (d, true) /\ astep false a (OSetBad kt) = (a, true).
+Proof. intros. split; reflexivity. Qed.
+
+(* ... while a StrategyDict has released exactly the names of the assignment: afterwards none of them
+   is a key, every other name reads as before *)
+Lemma aval_adrop_fold_in kt : forall a k, WF a -> In k kt -> aval (adrop_fold kt a) k = None.
+Proof.
+  induction kt as [|k1 r IH]; intros a k Hwf Hin; [destruct Hin|].
+  unfold adrop_fold. cbn [fold_left]. fold (adrop_fold r).
+  set (a1 := match aval a k1 with Some _ => adel1 (drop_default_if_last a k1) k1 | None => a end).
+  assert (Hwf1 : WF a1).
+  { unfold a1. destruct (aval a k1); [|exact Hwf]. apply WF_adel1. apply WF_drop. exact Hwf. }
+  destruct (in_dec Nat.eq_dec k r) as [Hr|Hr]; [apply IH; assumption|].
+  destruct Hin as [Heq|Hin]; [subst k1|contradiction].
+  rewrite aval_adrop_fold by assumption. unfold a1.
+  destruct (aval a k) eqn:E; [|exact E].
+  rewrite aval_adel1 by (rewrite amap_drop; apply (wf_nd _ Hwf)). rewrite Nat.eqb_refl. reflexivity.
+Qed.
+
+Theorem sd_rejected_set_unnames : forall a kt k, WF a ->
+  let a' := fst (astep true a (OSetBad kt)) in
+  snd (astep true a (OSetBad kt)) = true /\
+  (In k kt -> aval a' k = None) /\ (~ In k kt -> aval a' k = aval a k).
+Proof.
+  intros a kt k Hwf. simpl. split; [reflexivity|]. split; intro H.
+  - apply (aval_adrop_fold_in kt a k Hwf H).
+  - apply (aval_adrop_fold kt a k Hwf H).
+Qed.
+
+(* pure_ok is what the refinement gives for free on the model side: a read-only step shows the same state *)
+Lemma same_state_refl v : same_state v v = true.
+Proof.
+  unfold same_state. rewrite !andb_true_iff.
+  repeat split; try (apply list_eqb_spec; [|reflexivity]); try (apply Nat.eqb_refl).
+  - apply oval_eqb_spec. - apply otup_eqb_spec. - apply tup_eqb_spec. - apply tup_eqb_spec.
+  - apply Nat.eqb_eq. - apply oval_eqb_spec. - apply oval_eqb_spec; reflexivity.
+Qed.
+
+Theorem model_readonly_steps : forall ks vs d o e,
+  readonly false o = true ->
+  same_state (mview ks vs d e) (mview ks vs (fst (mstep d o)) (snd (mstep d o))) = true.
+Proof.
+  intros ks vs d o e H. destruct o; simpl in H; try discriminate; simpl;
+    exact (same_state_refl (mview ks vs d e)).
 Qed.
